@@ -42,10 +42,10 @@ FIRST_ORDER = ("SCS", "OSQP")
 # --------------------------------------------------------------------------- generation
 
 
-def gen_direct(rng, infeasible=False):
+def gen_direct(rng, infeasible=False, classes=None, plain=False):
     """Spec of an OptimProblem built directly: all row classes, duplicated mapping rows, booleans
     with arbitrary bounds.  Feasible by construction around a witness point x0 (unless asked not to be)."""
-    n = rng.randint(2, 24)
+    n = rng.choice([1, 1] + list(range(2, 25)) * 2)
     mip = rng.random() < 0.4
     nb = rng.randint(1, min(n, 8)) if mip else 0
     bools = sorted(rng.sample(range(n), nb))
@@ -61,11 +61,12 @@ def gen_direct(rng, infeasible=False):
             x = round(rng.uniform(lo, hi), 3) if hi > lo else lo
         l.append(float(lo)); u.append(float(hi)); x0.append(x)
     c = [round(rng.uniform(-10, 10), 2) if rng.random() < 0.85 else 0.0 for _ in range(n)]
-    classes = rng.choice([["U", "L", "S", "N"], ["U", "L", "S", "N"], ["U"], ["L"], ["S"], ["N"], ["U", "L"], ["S", "N"], []])
+    if classes is None:
+        classes = rng.choice([["U", "L", "S", "N"], ["U", "L", "S", "N"], ["U"], ["L"], ["S"], ["N"], ["U", "L"], ["S", "N"], []])
     rows = []
-    m = 0 if not classes else rng.randint(1, min(2 * n, 16))
+    m = 0 if not classes else rng.randint(max(1, len(classes) if plain else 1), max(min(2 * n, 16), len(classes)))
     for r in range(m):
-        t = rng.choice(classes)
+        t = classes[r] if (plain and r < len(classes)) else rng.choice(classes)
         k = rng.randint(1, min(n, 4))
         cols = sorted(rng.sample(range(n), k))
         vals = [round(rng.uniform(-3, 3), 2) or 1.0 for _ in cols]
@@ -77,10 +78,10 @@ def gen_direct(rng, infeasible=False):
             b = ax - slack
         else:
             b = ax
-            if t in ("S", "N") and sum(1 for rr in rows if rr["t"] in ("S", "N")) >= max(1, n - 2):
+            if t in ("S", "N") and sum(1 for rr in rows if rr["t"] in ("S", "N")) >= max(1, n - 2) and not plain:
                 t = "U"  # keep equality rows below n so the problem does not degenerate to a point too often
         rows.append({"t": t, "cols": cols, "vals": vals, "b": round(b, 6)})
-    zr = rng.random()
+    zr = rng.random() if not plain else 1.0
     if zr < 0.12:
         # rows without any coefficient: 0*x (<=,>=,=) b.  Satisfiable ones are harmless, an unsatisfiable one makes the
         # problem infeasible; sometimes they are the only rows of their class
@@ -113,9 +114,14 @@ def gen_direct(rng, infeasible=False):
                             "time_step": i % 5, "var_name": "v", "bool": i in bools})
     if rng.random() < 0.3:
         rng.shuffle(maprows)
+    if rng.random() < 0.15:
+        # variables without any mapping row (legal for optimize(): the mapping only describes)
+        drop = set(rng.sample([i for i in range(n) if i not in bools] or [None], 1)) - {None}
+        maprows = [r for r in maprows if r["i"] not in drop] or maprows
     with_bool_col = bool(bools) or rng.random() < 0.3
     return {"kind": "direct", "n": n, "c": c, "l": l, "u": u, "rows": rows, "map": maprows, "bool_col": with_bool_col,
-            "bools": bools, "x0": x0}
+            "bools": bools, "x0": x0, "A_format": rng.choice(["lil", "lil", "csr", "coo", "csc"]),
+            "bool_nan": bool(bools) and rng.random() < 0.3, "int_c": rng.random() < 0.2}
 
 
 def build_direct(s):
@@ -136,14 +142,47 @@ def build_direct(s):
     m = pd.DataFrame([{k: v for k, v in r.items() if k != "i"} for r in s["map"]], index=[r["i"] for r in s["map"]])
     if not s["bool_col"]:
         m = m.drop(columns=["bool"])
-    return eao.optimization.OptimProblem(c=np.array(s["c"], float), l=np.array(s["l"], float), u=np.array(s["u"], float),
+    elif s.get("bool_nan"):
+        # as after pd.concat of asset mappings with and without a 'bool' column: True or NaN (object dtype)
+        m["bool"] = m["bool"].astype(object).where(m["bool"], np.nan)
+    if A is not None and s.get("A_format", "lil") != "lil":
+        A = getattr(A, "to" + s["A_format"])()
+    c = np.array(s["c"], float)
+    if s.get("int_c"):
+        c = np.round(c).astype(np.int64)     # whole-number costs handed over as an integer array
+    return eao.optimization.OptimProblem(c=c, l=np.array(s["l"], float), u=np.array(s["u"], float),
                                          A=A, b=b, cType=ct, mapping=m)
+
+
+def build_direct_split(src):
+    """SplitOptimProblem assembled by the caller from directly built interval problems."""
+    import eaopack as eao
+    ops = [build_direct(x) for x in src["parts"]]
+    maps = []
+    off = 0
+    for o in ops:
+        mm = o.mapping.copy()
+        mm.index = mm.index + off
+        off += len(o.c)
+        maps.append(mm)
+    return eao.optimization.SplitOptimProblem(ops, pd.concat(maps))
 
 
 def gen_plan(rng, run_index, tier, opts):
     r = rng.random()
     plan = {"cfg": {}}
-    if r < 0.45:
+    if r < 0.07:
+        k = rng.randint(2, 6)
+        # (EAO stitches the interval duals key by key: all intervals carry the same row classes)
+        cls_ = rng.choice([["U", "L", "S", "N"], ["U"], ["L", "S"], ["U", "L"], ["S"], []])
+        parts = [gen_direct(rng, infeasible=False, classes=cls_, plain=True) for _ in range(k)]
+        if rng.random() < 0.4:
+            for p_ in parts:
+                p_["int_c"] = True     # every interval with integer-typed costs
+        plan["source"] = {"kind": "direct_split", "parts": parts}
+        mip = any(p_["bools"] for p_ in parts)
+        n_solves = 14
+    elif r < 0.45:
         plan["source"] = gen_direct(rng, infeasible=rng.random() < 0.15)
         mip = bool(plan["source"]["bools"])
         n_solves = 1
@@ -167,8 +206,8 @@ def gen_plan(rng, run_index, tier, opts):
         p = specs.gen_prices(env, g, form="dict_nd")
         mip = any(specs.is_mip_asset(env.world, a) for a in env.world["portfolios"][P]["assets"])
         plan["source"] = {"kind": "split", "world": specs.clean_world(env.world), "portfolio": P, "grid": g, "prices": p,
-                          "interval": rng.choice(["d", "d", "12h", "2d"])}
-        n_solves = 8
+                          "interval": rng.choice(["d", "d", "12h", "2d", "6h"])}
+        n_solves = 14
     plan["cfg"]["mip"] = mip
     if mip:
         solver = rng.choice(MIP_SOLVERS)
@@ -179,7 +218,7 @@ def gen_plan(rng, run_index, tier, opts):
     plan["solver"] = solver
     tr = rng.random()
     plan["target"] = "value"
-    if plan["source"]["kind"] != "split" and tr < 0.15:
+    if plan["source"]["kind"] not in ("split", "direct_split") and tr < 0.15:
         plan["target"] = "robust"
         plan["n_samples"] = rng.randint(2, 4)
         plan["sample_seed"] = rng.randrange(10 ** 6)
@@ -306,6 +345,8 @@ class Conversation:
         src = self.plan["source"]
         if src["kind"] == "direct":
             return build_direct(src), None
+        if src["kind"] == "direct_split":
+            return build_direct_split(src), None
         B = specs.Builder(src["world"])
         P = B.portfolio(src["portfolio"])
         g = B.grid(src["grid"])
@@ -376,6 +417,7 @@ class Conversation:
         if rk is not None:
             pts.append(np.asarray(rk, float))
         samples = self.samples if getattr(self, "cur_target", "value") == "robust" else None
+        objs = []
         for z in pts:
             self.stats["request_probe_points"] += 1
             x.save_value(z)
@@ -410,8 +452,29 @@ class Conversation:
                           "residuals")
                 return
             want_obj = tval if samples is not None else float(-np.asarray(op.c, float) @ z)
-            if abs(obj - want_obj) > 2e-7 * (1 + abs(want_obj)):
-                self.viol("request-objective", "objective of the request at a probe point is %r, -c.z is %r" % (obj, want_obj), "objective")
+            objs.append((obj, want_obj))
+        # The objective of the request must rank points as -c.z does: obj = alpha * (-c.z) + beta with alpha > 0 at all
+        # probe points (a positive rescaling or a constant shift - e.g. for conditioning - describes the same optimum;
+        # what EAO reports as value is checked on the result).  The direction of optimisation is part of this.
+        if objs:
+            o = np.array([a_ for a_, _ in objs], float)
+            wv = np.array([b_ for _, b_ in objs], float)
+            sense = 1.0 if type(prob.objective).__name__ == "Maximize" else -1.0
+            o = sense * o
+            spread = float(wv.max() - wv.min())
+            if spread > 1e-9 * (1 + float(np.abs(wv).max())):
+                A_ = np.vstack([wv, np.ones_like(wv)]).T
+                (alpha, beta), *_ = np.linalg.lstsq(A_, o, rcond=None)
+                resid = float(np.abs(A_ @ np.array([alpha, beta]) - o).max())
+                ok = alpha > 0 and resid <= 1e-6 * (1 + float(np.abs(o).max()))
+                if not ok:
+                    self.viol("request-objective", "the objective of the request does not rank the probe points as -c.z does: best affine fit "
+                              "obj = %.6g * (-c.z) + %.6g leaves residual %.3g (sense %s)" % (alpha, beta, resid, type(prob.objective).__name__), "objective")
+                    return
+                if abs(alpha - 1) > 1e-6 or abs(beta) > 1e-6 * (1 + float(np.abs(wv).max())):
+                    self.stats["request_objective_rescaled"] = self.stats.get("request_objective_rescaled", 0) + 1
+            elif float(np.abs(o - o[0]).max()) > 1e-6 * (1 + float(np.abs(o).max())):
+                self.viol("request-objective", "-c.z is constant over the probe points but the request's objective is not", "objective")
                 return
         for v in prob.variables():
             v.save_value(None)
@@ -420,8 +483,8 @@ class Conversation:
         """True if the point the peer returned violates the very request EAO sent by more than tol: then the peer,
         not EAO's translation, is responsible for an infeasible answer (cvxpy/SCIP e.g. accept '0*x == 0.5')."""
         k = rec.get("call") if rec else None
-        if k not in self.requests:
-            return False
+        if k not in self.requests or rec.get("eao_options"):
+            return False     # (options EAO passed itself - looser tolerances, limits - are not the peer's fault)
         prob, xv, oth = self.requests[k]
         try:
             xv.save_value(np.asarray(x, float))
@@ -443,7 +506,8 @@ class Conversation:
         status = rec.get("status") if rec else None
         if isinstance(res, str) or res is None:
             self.events.append((tag, "fail:%s" % res))
-            if fault is None and res == "not successful" and status in ("infeasible",):
+            eao_opts = bool(rec and rec.get("eao_options"))
+            if fault is None and res == "not successful" and (status in ("infeasible",) or (eao_opts and status not in (None, "raised"))):
                 self.stats["failures_checked"] += 1
                 st, val, _w = reference(op, bools)
                 self.stats["ref_solves"] += 1
@@ -460,14 +524,14 @@ class Conversation:
                             cv = max([float(np.max(np.atleast_1d(c.violation()), initial=0)) for c in prob.constraints] or [0.0])
                         except Exception:
                             cv = None
-                    if (getattr(self, "cur_solver", None) or "").upper() in FIRST_ORDER:
+                    if (getattr(self, "cur_solver", None) or "").upper() in FIRST_ORDER and not eao_opts:
                         self.stats["inconclusive"] += 1
-                    elif cv is not None and cv <= 1e-6 * (1 + float(np.abs(_w).max(initial=0))):
+                    elif cv is not None and cv <= 1e-6 * (1 + float(np.abs(_w).max(initial=0))) and not eao_opts:
                         self.stats["peer_false_infeasible"] = self.stats.get("peer_false_infeasible", 0) + 1
                         self.events.append((tag, "peer-false-infeasible"))
                     else:
                         self.viol("failure-reported-but-feasible", "optimize() reports '%s' (peer status %s) but the problem has a feasible point (verified witness, value %r) "
-                                  "which is not feasible in the request EAO sent (violation %r)" % (res, status, val, cv), "not-successful")
+                                  "which is %s (violation there %r)" % (res, status, val, "feasible in the request too - but EAO itself passed solver options %s" % rec.get("eao_options") if eao_opts else "not feasible in the request EAO sent", cv), "not-successful")
                 elif st == "infeasible":
                     self.probes["true_infeasible_reported"] += 1
             else:
@@ -543,7 +607,7 @@ class Conversation:
             # peer answered 'optimal' with a sub-optimal point (solver defect: counted, not charged to EAO);
             # otherwise EAO's translation lost or distorted something.
             k = rec.get("call") if rec else None
-            if k in self.requests:
+            if k in self.requests and not (rec and rec.get("eao_options")):
                 prob, xv, oth = self.requests[k]
                 try:
                     xv.save_value(np.asarray(rx, float))
@@ -717,13 +781,13 @@ class Conversation:
             r = R()
             r.x, r.value = seg, float(-np.asarray(o.c, float) @ seg)
             total += r.value
-            xx = self.check_result(o, r, {"status": "optimal", "call": k}, None, "interval%d" % k, bools_all[k])
+            xx = self.check_result(o, r, dict(log[k], status="optimal", call=k) if k < len(log) else {"status": "optimal", "call": k}, None, "interval%d" % k, bools_all[k])
             if self.violation is not None:
                 self.violation["detail"] = "interval %d: %s" % (k, self.violation["detail"])
                 return
-        logged = sum(float(r["value"]) for r in log if r.get("value") is not None)
-        if abs(float(res.value) - logged) > 1e-6 * (1 + abs(logged)):
-            self.viol("split-value-not-sum", "split value %r, sum of the interval optima reported by the peer %r" % (float(res.value), logged), "split-value")
+        otol = self.tols()[1]
+        if abs(float(res.value) - total) > max(otol, 1e-6) * (1 + abs(total) + sum(float(np.abs(o.c) @ np.abs(x[a_:a_ + len(o.c)])) for o, a_ in zip(ops, np.cumsum([0] + [len(o.c) for o in ops[:-1]])))):
+            self.viol("split-value-not-sum", "split value %r, but minus cost times the returned vector, summed over the intervals, is %r" % (float(res.value), total), "split-value")
             return
         self.events.append(("split", canon.digest_canon({"v": float(res.value)}, nd=4)))
 
@@ -773,6 +837,12 @@ def simplify_candidates(plan):
             c = copy.deepcopy(plan)
             del c["source"]["rows"][i]
             yield c
+    elif src["kind"] == "direct_split":
+        if len(src["parts"]) > 2:
+            for i in range(len(src["parts"])):
+                c = copy.deepcopy(plan)
+                del c["source"]["parts"][i]
+                yield c
     else:
         w = src["world"]
         P = src["portfolio"]
@@ -802,6 +872,8 @@ def aggregate(results):
                  "faults": p.get("faults"), "kind": p["source"]["kind"]}
             if p["source"]["kind"] == "direct":
                 s["problem"] = {k: p["source"][k] for k in ("n", "c", "l", "u", "rows", "bools")}
+            elif p["source"]["kind"] == "direct_split":
+                s["problem"] = [{k: q[k] for k in ("n", "c", "l", "u", "rows", "bools")} for q in p["source"]["parts"]]
             else:
                 s["assets"] = {a: x["cls"] for a, x in p["source"]["world"]["assets"].items()}
                 s["grid"] = p["source"]["world"]["grids"][p["source"]["grid"]]
